@@ -61,7 +61,8 @@ class C16(PropBase):
                 if q and all(isinstance(s, str) for s in q["loc"]) and len(targets) < cfg["n_targets"]:
                     targets.append(q)
             prng = ctx.rng("env")
-            env = {"recalc": prng.random() < 0.25, "trace": prng.choice([0, 0, 0, 3, 50])}
+            env = {"recalc": prng.random() < 0.25, "trace": prng.choice([0, 0, 0, 3, 50]),
+                   "fault": prng.randrange(1000) if prng.random() < 0.25 else None}
             steps.append({"op": "plan", "targets": targets, "step_size": cfg["step_size"], "env": env})
         else:
             steps = ctx.doc["steps"]
@@ -233,6 +234,40 @@ class C16(PropBase):
             ctx.count("multi_block_plans", 1, "reach")
             ctx.nontrivial = True
         mach.events.append("plan targets=%s step=%s blocks=%d" % (targets, op["step_size"], nblocks))
+        env = op.get("env") or {}
+        sites = [x for x in probe.LOG if x[2] == 0]
+        if env.get("fault") is not None and sites:
+            # the run fails at a seeded formula (an injected exception): whatever it had pasted by then is not left behind as
+            # the user's input, and the same actions executed again - the failure gone - do what they always do
+            site = sites[env["fault"] % len(sites)]
+            inputs_before = {e for e in before if e in ev.inputs}
+            probe.reset()
+            probe.arm(probe.FaultPlan([{"site": [site[0], site[1], site[2], list(site[3])], "occ": 0, "exc": "ValueError"}], ()))
+            try:
+                m.execute_actions(actions)
+                failed = False
+            except BaseException:
+                failed = True
+            finally:
+                probe.arm(None)
+            ctx.count("ValueError" if failed else "armed_not_reached", 1, "faults_fired")
+            mach.events.append("execute under fault at %r -> %s" % (site, "failed" if failed else "completed"))
+            if failed:
+                left = []
+                for el in held():
+                    if el in inputs_before or "[" in el[0]:
+                        continue
+                    try:
+                        if mach.world.space(el[0]).cells[el[1]].is_input(*el[2]):
+                            left.append(repr(el))
+                    except Exception:
+                        pass
+                if left:
+                    raise Violation("C16/failed-run-left-pasted-values-as-inputs", {"elements": left[:5], "step_size": op["step_size"]})
+                sysm = mx.core.mxsys
+                if sysm.callstack or sysm.executor.is_executing:
+                    raise Violation("C16/left-marked-executing/after-failed-run", {})
+                ctx.count("failed_runs_checked", 1, "reach")
         probe.reset()
         try:
             m.execute_actions(actions)
